@@ -1180,6 +1180,7 @@ def build_catalogue() -> Catalogue:
     models.add_model_ops(cat, Op)
     models.add_model_ops_2(cat, Op)
     models.add_model_ops_3(cat, Op)
+    models.add_model_ops_4(cat, Op)
 
     return cat
 
